@@ -187,7 +187,7 @@ def judge_reader(chk, c, data, evs):
 
 def writer_case(i):
     sd = vfw.seed() * 1000003 + 500000 + i
-    g = genlib.Gen(sd, dict(oas_props=False, nonsimple=False, max_cells=4))
+    g = genlib.Gen(sd, dict(oas_props=False, nonsimple=False, max_cells=4, odd_widths=True))
     lib = g.library()
     rnd = random.Random(sd)
     c = Case('W%d' % i, timeout=60)
